@@ -132,6 +132,13 @@ fn entropy_new(o: &mut Outcome, seed: u64, at: Option<usize>, width: usize, driv
 }
 
 fn entropy_start(o: &mut Outcome, seed: u64, at: Option<usize>, width: usize, drive: bool) {
+    entropy_start_rel(o, seed, at, width, drive, "")
+}
+
+/// `rel`: what the faulty draws reduce to - the close tag itself (""), or a value related to the
+/// customer's current state so that a nonce *derived* from the draw and the old state lands on the
+/// tag: tag - old nonce, tag + old nonce, tag - old lock.
+fn entropy_start_rel(o: &mut Outcome, seed: u64, at: Option<usize>, width: usize, drive: bool, rel: &str) {
     let m = merchant(MSPEC);
     let mut healthy = SimRng::new(seed, "c18/start/establish");
     let (ready, _) = match establish(o, seed, &mut healthy, 60, 6) {
@@ -148,7 +155,26 @@ fn entropy_start(o: &mut Outcome, seed: u64, at: Option<usize>, width: usize, dr
     let _ = r0.start(&mut base, amt, &ctx, &m.ccfg);
     let ndraws = base.draws.len();
     let mut rng = match at {
-        Some(a) => faulty_rng(seed, label, a, width),
+        Some(a) if rel.is_empty() => faulty_rng(seed, label, a, width),
+        Some(a) => {
+            let rt = atoms::trace(&ready);
+            let old_nonce = refc::sc(rt.get("state.nonce"));
+            let old_lock = refc::sc(rt.get("state.revocation_pair.lock"));
+            let v = match rel {
+                "tag-minus-nonce" => refc::close_tag() - old_nonce,
+                "tag-plus-nonce" => refc::close_tag() + old_nonce,
+                "tag-minus-lock" => refc::close_tag() - old_lock,
+                _ => crate::harness_error("C18: unknown relation"),
+            };
+            let mut wide = refc::scb(&v).to_vec();
+            wide.extend_from_slice(&[0u8; 32]);
+            let mut f = BTreeMap::new();
+            for i in a..a + width {
+                f.insert(i, EntropyFault::Bytes(wide.clone()));
+            }
+            o.bump("fault.entropy.state-related-draw");
+            SimRng::with_faults(seed, label, f)
+        }
         None => SimRng::new(seed, label),
     };
     let (started, sm) = match ready.start(&mut rng, amt, &ctx, &m.ccfg) {
@@ -371,6 +397,32 @@ fn channel_id_clause(o: &mut Outcome, seed: u64) {
         x[i] ^= 1 << s.usize(8);
         differ(o, "customer-account", mk(&mr, &cr, pk, &ma, &x));
     }
+    // an account string and a digest of it are different inputs (a derivation that pre-hashes
+    // long inputs aliases them); likewise its truncation to a block size and its zero padding
+    {
+        use sha3::{Digest, Sha3_256, Sha3_512};
+        for (which, acct) in [("merchant-account", &ma), ("customer-account", &ca)] {
+            let mut alts: Vec<(&str, Vec<u8>)> = vec![
+                ("sha3-256", Sha3_256::digest(acct).to_vec()),
+                ("sha3-512", Sha3_512::digest(acct).to_vec()),
+            ];
+            for cut in [32usize, 64, 128, 136] {
+                if acct.len() > cut {
+                    alts.push(("truncated", acct[..cut].to_vec()));
+                }
+            }
+            let mut padded = (*acct).clone();
+            padded.push(0);
+            alts.push(("zero-padded", padded));
+            for (how, alt) in alts {
+                if &alt == acct {
+                    continue;
+                }
+                let id = if which == "merchant-account" { mk(&mr, &cr, pk, &alt, &ca) } else { mk(&mr, &cr, pk, &ma, &alt) };
+                differ(o, &format!("{}:{}", which, how), id);
+            }
+        }
+    }
     // account information is usually text: every single-character change, including a change
     // of letter case only, must change the id
     let text_m = format!("Merchant Account {} / tz1{:x}", seed % 1000, seed);
@@ -487,6 +539,11 @@ impl Prop for C18 {
                     v.push(json!({"f": "entropy-start", "seed": es, "at": at, "width": width, "drive": width == 1 && k < 3}));
                 }
             }
+            for at in ds.iter().take(first) {
+                for rel in ["tag-minus-nonce", "tag-plus-nonce", "tag-minus-lock"] {
+                    v.push(json!({"f": "entropy-start", "seed": es, "at": at, "width": 1, "drive": false, "rel": rel}));
+                }
+            }
             v.push(json!({"f": "decode", "seed": es}));
             for k in 0..(if tier == Tier::Quick { 4 } else { 8 }) {
                 v.push(json!({"f": "channel-id", "seed": mix(&[es, k])}));
@@ -532,7 +589,7 @@ impl Prop for C18 {
         let drive = case["drive"].as_bool().unwrap_or(false);
         match case["f"].as_str().unwrap_or("") {
             "entropy-new" => entropy_new(&mut o, seed, at, width, drive),
-            "entropy-start" => entropy_start(&mut o, seed, at, width, drive),
+            "entropy-start" => entropy_start_rel(&mut o, seed, at, width, drive, case["rel"].as_str().unwrap_or("")),
             "decode" => decode_clause(&mut o, seed),
             "channel-id" => channel_id_clause(&mut o, seed),
             "relabel" => {
@@ -570,7 +627,7 @@ impl Prop for C18 {
         }
     }
     fn rule(&self) -> String {
-        "five case families. entropy-new / entropy-start: a fault-free execution records the 64-byte draw points of Requested::new (all) and Ready::start (first 8, thorough 24); the operation is re-executed with the draw(s) at one point, window width 1-3, returning bytes that reduce to the close tag; the nonce of the resulting state (read by role from the stage image, and — control — shown by the next payment after driving the real protocol forward) must differ from the tag and the stage must still decode. decode: the tag and tag+q as a Nonce and inside every stored customer stage must not decode. relabel: in seeded histories with wrong-type replies at every faulted reply point, the stored pay token is moved into the closing message sharing its fields (real check_close_signature must fail) and both signatures are checked against the reference relation on the other message. channel-id: every single-input change (each byte of both randomness values and both account strings, length, another key, a key differing in one element) must change the id. Distinct = distinct case; non-trivial = a fault / substitution was injected".into()
+        "five case families. entropy-new / entropy-start: a fault-free execution records the 64-byte draw points of Requested::new (all) and Ready::start (first 8, thorough 24); the operation is re-executed with the draw(s) at one point, window width 1-3, returning bytes that reduce to the close tag (for Ready::start also to tag - old nonce, tag + old nonce, tag - old lock); the nonce of the resulting state (read by role from the stage image, and — control — shown by the next payment after driving the real protocol forward) must differ from the tag and the stage must still decode. decode: the tag and tag+q as a Nonce and inside every stored customer stage must not decode. relabel: in seeded histories with wrong-type replies at every faulted reply point, the stored pay token is moved into the closing message sharing its fields (real check_close_signature must fail) and both signatures are checked against the reference relation on the other message. channel-id: every single-input change (each byte of both randomness values and both account strings, length, another key, a key differing in one element) must change the id. Distinct = distinct case; non-trivial = a fault / substitution was injected".into()
     }
     fn assumptions(&self) -> Vec<String> {
         vec![
@@ -582,6 +639,7 @@ impl Prop for C18 {
     fn required_probes(&self, _tier: Tier) -> Vec<&'static str> {
         vec![
             "probe.nonce_retry_taken",
+            "fault.entropy.state-related-draw",
             "probe.role_control_passed",
             "probe.nonce_differs_from_tag",
             "probe.tag_nonce_refused",
